@@ -175,6 +175,10 @@ func c14Request(proto_ string, hdrs map[string][]string) *http.Request {
 		r.Header.Set("Content-Type", "application/grpc-web+proto")
 	case "http":
 		r = httptest.NewRequest("GET", "/c14/unary", nil)
+	case "twirp":
+		r = httptest.NewRequest("POST", "/verif.c14.Msvc/Unary", strings.NewReader("{}"))
+		r.Header.Set("Content-Type", "application/json")
+		r.Header.Set("Twirp-Version", "7.0.0")
 	default:
 		panic(proto_)
 	}
@@ -309,7 +313,9 @@ func c14Run(o *out, input string) {
 
 func c14Gen(o *out, r *rng, tier string) {
 	protos := []string{"grpc", "web", "http"}
-	names := []string{"x-a", "X-Custom", "x-MiXed-Case", "x-multi", "x-trace-id", "X-Data-Bin", "x-k-bin", "authorization", "x-bin", "x-binary"}
+	names := []string{"x-a", "X-Custom", "x-MiXed-Case", "x-multi", "x-trace-id", "X-Data-Bin", "x-k-bin", "authorization", "x-bin", "x-binary",
+		// application keys that merely resemble protocol names: the tails of the grpc-* headers, and names that begin like hop-by-hop headers
+		"Status", "message", "Timeout", "encoding", "message-type", "Upgrade-Insecure-Requests", "Connection-Id", "keep-alive-budget", "Te-Deum"}
 	reservedIn := []string{"Content-Type", "User-Agent", "Grpc-Timeout", "Grpc-Encoding", "Te", "Grpc-Message-Type", "Grpc-Status", "Grpc-Message", "Grpc-Status-Details"}
 	text := []string{"v", "value one", "a,b", "with;semi", "100%", "UPPER", "0", "x=y"}
 	binVals := func(n int) [][]byte {
@@ -388,7 +394,7 @@ func c14Gen(o *out, r *rng, tier string) {
 	}
 
 	// ---- outgoing ----
-	outKeys := []string{"x-a", "x-multi", "x-resp-bin", "x-bin", "custom-key", "x-trace"}
+	outKeys := []string{"x-a", "x-multi", "x-resp-bin", "x-bin", "custom-key", "x-trace", "status", "message", "timeout", "encoding", "connection-id", "upgrade-hint"}
 	protected := []string{"content-type", "grpc-status", "grpc-message", "grpc-encoding", "grpc-status-details-bin", "grpc-timeout", "te", "user-agent",
 		"trailer", "content-length", "transfer-encoding", "content-encoding", "connection"}
 	emitO := func(p string, fail bool, h, t map[string][]string, tag string) {
@@ -399,7 +405,7 @@ func c14Gen(o *out, r *rng, tier string) {
 		}
 		c14Run(o, fmt.Sprintf("C14O %s %s %s %s", p, st, encMap(h), encMap(t)))
 	}
-	for _, p := range protos {
+	for _, p := range append(append([]string{}, protos...), "twirp") {
 		for _, fail := range []bool{false, true} {
 			for _, k := range outKeys {
 				v := []string{"v1", "v2"}
